@@ -274,7 +274,8 @@ class Decision:
 class Engine:
     symbolic = True
 
-    def __init__(self, fixed=None, timeout_ms=20000):
+    def __init__(self, fixed=None, timeout_ms=20000, preset=None):
+        self.preset = dict(preset or {})
         self.solver = z3.Solver()
         self.solver.set("timeout", timeout_ms)
         self.fixed = list(fixed or [])
@@ -300,6 +301,9 @@ class Engine:
     def fresh_bool(self, name):
         v = z3.Bool(name)
         self.vars[name] = v
+        if name in self.preset:
+            self._assume(v == bool(self.preset[name]))
+            return SymBool(self, z3.BoolVal(bool(self.preset[name])))
         return SymBool(self, v)
 
     def fresh_int(self, name, lo=None, hi=None, opaque=True):
@@ -310,6 +314,8 @@ class Engine:
                 self._assume(v >= lo)
             if hi is not None:
                 self._assume(v <= hi)
+            if name in self.preset:
+                self._assume(v == int(self.preset[name]))
         return SymInt(self, v, opaque)
 
     def choose(self, name, n):
@@ -321,6 +327,9 @@ class Engine:
         self.vars[name] = v
         if not fresh:
             return self.concretize(v)
+        if name in self.preset:
+            self._assume(v == int(self.preset[name]))
+            return int(self.preset[name])
         if self.pos < len(self.decisions):
             d = self.decisions[self.pos]
         else:
